@@ -76,6 +76,11 @@ fn one_call(b: &mut Builder, toks: &[&str]) -> Option<String> {
             let i = if a.get(0)? == &"_" { None } else { Some(a.get(0)?.parse::<usize>().ok()?) };
             ru(b.select_block(i))
         }
+        "find_return_block_indices" => {
+            let v = b.find_return_block_indices();
+            format!("list:{}", v.iter().map(|x| x.to_string()).collect::<Vec<_>>().join("."))
+        }
+        "select_function_by_name" => ru(b.select_function_by_name(&strarg(a.get(0)?)?)),
         "pop_instruction" => match b.pop_instruction() {
             Ok(i) => format!("inst:{}", inst_text(&i)),
             Err(e) => format!("err:{}", ename(&e)),
@@ -88,6 +93,21 @@ pub fn do_bld(line: &str) -> String {
     let calls: Vec<Vec<&str>> = line.split(" | ").map(|c| c.split(' ').filter(|x| !x.is_empty()).collect()).filter(|c: &Vec<&str>| !c.is_empty()).collect();
     let mut b = Builder::new();
     let mut out: Vec<String> = vec![];
+    let mut calls = calls;
+    // `new_from_module <bound>` as the first call: continue an (empty) module whose header has that bound
+    if let Some(first) = calls.first() {
+        if first[0] == "new_from_module" {
+            let bound = match first.get(1).and_then(|t| w(t)) { Some(v) => v, None => return "BADCALL".into() };
+            let mut m = dr::Module::new();
+            m.header = Some(dr::ModuleHeader::new(bound));
+            match std::panic::catch_unwind(|| Builder::new_from_module(m)) {
+                Ok(nb) => b = nb,
+                Err(_) => return "PANIC".into(),
+            }
+            out.push("from,-,-".into());
+            calls.remove(0);
+        }
+    }
     for c in &calls {
         let before = module_text(b.module_ref());
         let r = std::panic::catch_unwind(std::panic::AssertUnwindSafe(|| one_call(&mut b, c)));
